@@ -142,3 +142,65 @@ def crash_replay(rp):
     """C08: fault-injection replay of a failed crash-invariant obligation on the real code (contracts/crash_replay.py)."""
     from contracts.crash_replay import crash_replay as f
     return f(rp)
+
+
+_SEED_CHILD = r'''
+import json, sys
+sys.path.insert(0, sys.argv[1])
+from twosigma.memento import code_hash
+cands = {
+    "frozenset({1, '1'})": frozenset({1, "1"}),
+    "frozenset({'alpha','beta','gamma','delta','epsilon'})": frozenset({"alpha", "beta", "gamma", "delta", "epsilon"}),
+    "frozenset({('x', 1), ('y', 2), ('z', 3)})": frozenset({("x", 1), ("y", 2), ("z", 3)}),
+    "frozenset({1.5, '1.5', b'1.5'})": frozenset({1.5, "1.5", b"1.5"}),
+    "(frozenset({'p','q','r'}), frozenset({2, '2'}))": (frozenset({"p", "q", "r"}), frozenset({2, "2"})),
+    "frozenset({frozenset({'a','b','c'}), 'd', 'e'})": frozenset({frozenset({"a", "b", "c"}), "d", "e"}),
+}
+out = {}
+if hasattr(code_hash, "_stable_repr"):
+    for k, v in cands.items():
+        out["_stable_repr(%s)" % k] = code_hash._stable_repr(v)
+srcs = {
+    "fn_code_hash(def g(flag): return flag in {1, '1'})": "def g(flag):\n    return flag in {1, '1'}\n",
+    "fn_code_hash(def g(w): return w in {'alpha','beta','gamma','delta','epsilon'})": "def g(w):\n    return w in {'alpha', 'beta', 'gamma', 'delta', 'epsilon'}\n",
+    "fn_code_hash(def g(t): return t in {('x', 1), ('y', 2), ('z', 3)})": "def g(t):\n    return t in {('x', 1), ('y', 2), ('z', 3)}\n",
+    "fn_code_hash(nested: def g(w): return (lambda v: v in {'a','b','c','d'})(w))": "def g(w):\n    return (lambda v: v in {'a', 'b', 'c', 'd'})(w)\n",
+}
+for k, src in srcs.items():
+    ns = {}
+    exec(compile(src, "<c03-replay>", "exec"), ns)
+    out[k] = code_hash.fn_code_hash(ns["g"])
+print(json.dumps(out))
+'''
+
+
+def _replay_seed_independence(rp):
+    """C03: a failed hash-seed-independence obligation cannot be replayed from the counter-model (a process has ONE hash seed, and the model's
+    objects are not constructible): the replay renders a fixed family of constants / hashes a fixed family of functions with the real code in
+    child processes under PYTHONHASHSEED 0..15 and reports the first whose output differs between seeds."""
+    if "seed_independent" not in (rp.get("clause") or ""):
+        from pyvc.native_replay import run
+        return run(rp)
+    import json
+    import os
+    import subprocess
+    import sys
+    repo = rp.get("repo") or os.environ.get("PYVC_REPO", "/repo")
+    outs = {}
+    for seed in range(16):
+        p = subprocess.run([sys.executable, "-c", _SEED_CHILD, repo], capture_output=True, text=True, timeout=120, env=dict(os.environ, PYTHONHASHSEED=str(seed)))
+        if p.returncode != 0:
+            return {"reproduced": None, "detail": "seed replay child failed: " + p.stderr[-500:]}
+        outs[seed] = json.loads(p.stdout)
+    for k in outs[0]:
+        vals = {}
+        for seed, o in outs.items():
+            vals.setdefault(o[k], []).append(seed)
+        if len(vals) > 1:
+            return {"reproduced": True, "detail": "%s differs between processes: %s" % (k, "; ".join("PYTHONHASHSEED in %s -> %r" % (v, r) for r, v in list(vals.items())[:3])),
+                    "inputs": k, "explored": "%d expressions x 16 hash seeds" % len(outs[0])}
+    return {"reproduced": False, "detail": "no expression of the fixed family renders differently under PYTHONHASHSEED 0..15", "explored": "%d expressions x 16 hash seeds" % len(outs[0])}
+
+
+BUILDERS["code_hash:_stable_repr"] = _replay_seed_independence
+BUILDERS["code_hash:fn_code_hash.<locals>.hash_if_code_object"] = _replay_seed_independence
